@@ -785,13 +785,16 @@ def u6u7(fb, chk):
         # each kernel table entry carries the caller's region values unchanged
         want_src = {"guest_phys_addr": "guest_phys_addr", "memory_size": "memory_size", "userspace_addr": "userspace_addr"}
         n_ent = 0
-        for b_ in f.blocks:
+        # the entry may be built in the function itself or in a closure of it (`regions.iter().map(|r| vhost_memory_region {..})`)
+        holders = [(f, m.sym)] + [(g_, Sym(g_, fb)) for g_ in fb.fns.values() if g_.rec.get("dk") == "Closure" and g_.key.startswith(f.key + "::")]
+        for hf_, hsym_ in holders:
+          for b_ in hf_.blocks:
             if b_["cleanup"]:
                 continue
             for st_ in b_["stmts"]:
                 if st_["k"] == "assign" and st_["rv"]["k"] == "agg" and st_["rv"].get("ak") == "adt" and (st_["rv"].get("adt") or "").endswith("vhost_memory_region"):
                     n_ent += 1
-                    v_ = m.sym.rvalue(st_["rv"])
+                    v_ = hsym_.rvalue(st_["rv"])
                     for fld, val in v_[3]:
                         if fld not in want_src:
                             continue
